@@ -62,7 +62,7 @@ def build_and_audit(force=False):
         with open(cache) as f:
             return json.load(f)
     os.makedirs(core.CACHE, exist_ok=True)
-    rc, log, secs = core.run(["lake", "build", "drv", "CkptVerif"], cwd=core.LEAN_DIR, timeout=3000)
+    rc, log, secs = core.run(["lake", "build", "drv", "CkptVerif", "CkptGen"], cwd=core.LEAN_DIR, timeout=3000)
     failed = sorted(set(re.findall(r"^- (CkptVerif[\w.]*|Driver[\w.]*)", log, re.M)))
     obl = obligations()
     res = {"built": rc == 0, "build_seconds": round(secs, 1), "failed_modules": failed,
